@@ -28,8 +28,8 @@ def torn_primary(e):
     return e.get("fskind") == "append" and e.get("cut", -1) >= 0 and str(e.get("fsfile", "")).startswith("data.")
 
 
-def run_crash(rep, scens, label, workers=None):
-    """-> (violations [(what, replay)], known {id: count}, summary)"""
+def run_crash(rep, scens, label, workers=None, collect=None):
+    """-> (violations [(what, replay)], known {id: count}, summary); `collect` (a list) receives every crash case"""
     d = vlib.subdir("crash." + label)
     sf = os.path.join(d, "scen.ndjson")
     vlib.write_ndjson(sf, scens)
@@ -37,6 +37,8 @@ def run_crash(rep, scens, label, workers=None):
     cont = sorted(glob.glob(os.path.join(d, "trace.cont.*.ndjson")))
     bad, n1, _ = vlib.validate_traces("CrashTrace", "CrashTrace.cfg", files)
     cases = load_cases(files)
+    if collect is not None:
+        collect.extend(cases.values())
     bycont = {e["cont"]: (k, e) for k, e in cases.items() if "cont" in e}
     bad2, n2, _ = vlib.validate_traces("StoreTrace", "StoreTrace.cfg", cont) if cont else ([], 0, 0)
     bad3, n3, _ = vlib.validate_traces("FsckTrace", "FsckTrace.cfg", cont, extra_env={"VRULES": "C07"}) if cont else ([], 0, 0)
@@ -156,6 +158,64 @@ def crash_clause_c09(rep, rng, thorough):
             vlib.log("known finding %s no longer reproduces on its witness" % w["id"])
 
 
+MKEYS = [[1, 7, 7, 0, 9, 0, 3, 3], [1, 7, 7, 0, 9, 0, 3, 4], [2, 7, 7, 0, 9, 0, 3, 3]]
+
+
+def model_crash_part(rep, rng, thorough):
+    """StoreCrash.tla: crash at every stage of a commit (np primary records, ni record lists, freelist) + recovery by
+    rescan, model-checked (Durable, NoLiveFreed, Refines afterwards).  Binding: for every history of the model that ends
+    in a crash, the history + a final Flush runs in a child under strace, EVERY image of that Flush (all byte prefixes) is
+    recovered by the real OpenStore (verdict: CrashTrace/Durable.tla as for all scenarios), and the recovered contents are
+    compared with the set of contents the model's crash stages recover (conformance figure, not a verdict)."""
+    pl, il, mc = (33, 30, 5) if thorough else (33, 30, 4)
+    consts = {"Vals": "{0, 5}", "PriLimit": pl, "IdxLimit": il, "MaxCalls": mc, "WithGC": "FALSE", "LowUses": "{101}", "CommitOrder": '"pif"', "Faults": '{"crash"}'}
+    r0 = vlib.tlc_must("MCStoreCrash", "MCStoreCrash_mc.cfg", consts=consts, timeout=3000)
+    if r0.violated:
+        raise vlib.Infra("StoreCrash.tla violates Durable / NoLiveFreed / Refines - replay the counter-example first:\n" + r0.out[-2500:])
+    rep.add_model(r0)
+    g = vlib.tlc_must("MCStoreCrash", "MCStoreCrash_edges.cfg", consts=consts, timeout=3000)
+    groups = {}
+    for sc in g.printed("SCN"):
+        ops = sc["ops"]
+        if not ops or ops[-1]["op"] != "crash" or any(o["op"] == "crash" for o in ops[:-1]):
+            continue
+        key = json.dumps(ops[:-1], sort_keys=True)
+        grp = groups.setdefault(key, {"ops": ops[:-1], "out": set()})
+        grp["out"].add(tuple(0 if v < 0 else (1 if v == 0 else 2) for v in ops[-1]["rec"]))
+    keys = sorted(groups)
+    if not thorough and len(keys) > 260:
+        # prefer histories whose final commit has something to write
+        keys = rng.sample(keys, 260)
+    cfg = dict(primary="mh", bits=8, il=il, pl=pl, imm=False, keys=MKEYS, vals=["empty", "b5"])
+    scens = []
+    for i, k in enumerate(keys):
+        ops = [dict(o, v=(1 if o.get("vlen") == 0 else 2)) if o["op"] == "put" else o for o in groups[k]["ops"]] + [{"op": "flush"}]
+        scens.append({"cfg": cfg, "ops": ops, "maxImgs": 0, "cont": [], "mode": "", "seed": vlib.seed() * 1000 + i, "onlyOps": [len(ops) - 1], "allTorn": True})
+    cases = []
+    viol, known, summ = run_crash(rep, scens, "model", collect=cases)
+    for what, obj in viol:
+        rep.violation(what, obj)
+    unpredicted = observed = 0
+    seen = {}
+    for e in cases:
+        if e.get("open") or e.get("panic"):
+            continue
+        out = groups[keys[e["t"]]]["out"]
+        o = tuple(e["obs"])
+        observed += 1
+        if o not in out:
+            unpredicted += 1
+        else:
+            seen.setdefault(e["t"], set()).add(o)
+    rep.cov["mechanism_model_crash_histories"] = len(scens)
+    rep.cov["mechanism_model_crash_images_recovered"] = observed
+    rep.cov["mechanism_model_recovered_contents_the_model_does_not_predict"] = unpredicted
+    rep.cov["mechanism_model_predicted_outcomes"] = sum(len(groups[k]["out"]) for k in keys)
+    rep.cov["mechanism_model_predicted_outcomes_observed"] = sum(len(v) for v in seen.values())
+    vlib.log("C03 mechanism model: %d crash histories, %d images recovered, %d recovered contents not predicted by StoreCrash.tla, %d of %d predicted outcomes observed" % (
+        len(scens), observed, unpredicted, rep.cov["mechanism_model_predicted_outcomes_observed"], rep.cov["mechanism_model_predicted_outcomes"]))
+
+
 def run(pid):
     rep = vlib.Report(pid)
     rng = random.Random(vlib.seed())
@@ -176,6 +236,8 @@ def run(pid):
         rep.violation(what, obj)
     rep.cov["continuation_failures_attributed_to_known_findings"] = known
     rep.cov["samples"] = [scens[0]["ops"][:12] or scens[0].get("legacy")]
+    if pid == "C03":
+        model_crash_part(rep, rng, thorough)
     # pinned witnesses
     for w, sc in witnesses(pid, "findings"):
         v2, k2, _ = run_crash(rep, [sc], "kf")
